@@ -31,6 +31,12 @@ structure Fns (α : Type) where
   atan2 : α → α → α
   pow : α → α → α
 
+/-- the scalar `MathToolbox<Scalar>` predicates used by `MathToolbox<Evaluation>::isnan / isfinite / isSame` -/
+structure Preds (α : Type) where
+  isnan : α → Bool
+  isfinite : α → Bool
+  isSame : α → α → α → Bool
+
 /-- storage array -> slot function (out-of-range slots read as 0; never happens for
 well-sized arrays) -/
 def toFn {α : Type} [OfNat α 0] {k : Nat} (a : Array α) : Fin k → α := fun i => a.getD i.val 0
@@ -63,6 +69,47 @@ structure ADOps (α : Type) (n : Nat) where
   sdiv : α → (Fin (n + 1) → α) → Fin (n + 1) → α
   const : α → Fin (n + 1) → α
   varBase : α → Fin (n + 1) → α
+
+/-- conjunction over the slots 0 … k-1 in loop order (`for (idx = 0; idx < length_(); ++idx) if (…) return false; return true`) -/
+def allSlots : (k : Nat) → (Fin k → Bool) → Bool
+  | 0, _ => true
+  | k + 1, p => p 0 && allSlots k (fun i => p i.succ)
+
+/-- Second operator set of one Evaluation class: compound assignment with the object itself as the
+right-hand side (`x op= x`, the argument aliases `*this`), the comparison operators (members with an
+Evaluation / scalar right-hand side, friends `scalar ∘ Evaluation` of Evaluation.hpp) and the
+factories that exist in every variant (`createConstantZero/One(x)`, `createConstant(x, c)`,
+`createVariable(x, c, varPos)` before the one-hot store). -/
+@[ext] structure ADOps2 (α : Type) (n : Nat) where
+  addSelf : (Fin (n + 1) → α) → Fin (n + 1) → α
+  subSelf : (Fin (n + 1) → α) → Fin (n + 1) → α
+  mulSelf : (Fin (n + 1) → α) → Fin (n + 1) → α
+  divSelf : (Fin (n + 1) → α) → Fin (n + 1) → α
+  eqE : (Fin (n + 1) → α) → (Fin (n + 1) → α) → Bool
+  neE : (Fin (n + 1) → α) → (Fin (n + 1) → α) → Bool
+  ltE : (Fin (n + 1) → α) → (Fin (n + 1) → α) → Bool
+  gtE : (Fin (n + 1) → α) → (Fin (n + 1) → α) → Bool
+  leE : (Fin (n + 1) → α) → (Fin (n + 1) → α) → Bool
+  geE : (Fin (n + 1) → α) → (Fin (n + 1) → α) → Bool
+  eqS : (Fin (n + 1) → α) → α → Bool
+  neS : (Fin (n + 1) → α) → α → Bool
+  ltS : (Fin (n + 1) → α) → α → Bool
+  gtS : (Fin (n + 1) → α) → α → Bool
+  leS : (Fin (n + 1) → α) → α → Bool
+  geS : (Fin (n + 1) → α) → α → Bool
+  sne : α → (Fin (n + 1) → α) → Bool
+  slt : α → (Fin (n + 1) → α) → Bool
+  sgt : α → (Fin (n + 1) → α) → Bool
+  sle : α → (Fin (n + 1) → α) → Bool
+  sge : α → (Fin (n + 1) → α) → Bool
+  constZero : Fin (n + 1) → α
+  constOne : Fin (n + 1) → α
+  constX : α → Fin (n + 1) → α
+  varXBase : α → Fin (n + 1) → α
+
+/-- `createConstant(int nVars, c)` / `createVariable(int nVars, c, varPos)` of the statically sized
+classes: `if (nVars != arity) throw …; return …` -/
+def guarded {β : Type} (arity nVars : Int) (x : β) : Option β := if nVars != arity then none else some x
 
 /-- Dual numbers: a value and the gradient with respect to `n` independent variables. -/
 structure Dual (n : Nat) (α : Type) where
